@@ -54,11 +54,13 @@ Definition strip_cr (l : str) : str :=
   | [] => l
   end.
 
-(** [str::lines]: split at '\n', drop a final empty piece, strip one trailing '\r' of each line *)
+(** [str::lines]: split after each '\n'; a final piece without '\n' is a line only if it is non-empty;
+    only a line that was terminated by '\n' has one trailing '\r' stripped as well *)
 Definition lines (s : str) : list str :=
-  let ps := split_lf s in
-  let ps := match rev ps with [] :: r => rev r | _ => ps end in
-  map strip_cr ps.
+  match rev (split_lf s) with
+  | [] => []
+  | last :: r => map strip_cr (rev r) ++ (match last with [] => [] | _ => [last] end)
+  end.
 
 Definition is_nil {A} (l : list A) : bool := match l with [] => true | _ => false end.
 
